@@ -586,3 +586,18 @@ for op, args, view in (('remove_species', dict(name=Const('B')), ['A', 'C']), ('
                       ('members-of-the-other-phase-untouched',
                        '[s.name for s in q.species] == ["A", "B", "C"] and all(s.phase is self for s in q.species)')],
              cross_check=False)
+
+# ---- ids the range notation cannot carry verbatim (five-digit zero-padded, signed): the phase must not list other ids ---------
+for ids in (('r_00001', 'r_00002', 'r_00003'), ('r_+001',), ('r_0001', 'r_00002')):
+    contract(II + '.to_cti', P, label='reaction-ids=%s' % ','.join(ids),
+             args=dict(self=New(II, name=Const('terrace'), species=members3(), site_density=Real(1e-10, 1e-8), phases=Const(['gas', 'bulk']),
+                                reactions=gas_rxs(*ids)), units=UNITS()),
+             requires=['self.site_density > 0'],
+             ensures=[('lists-the-ids-verbatim-if-it-accepts-them',
+                       'spec.ids.denotes_exactly(pm.cantera._get_omkm_range(objs=self.reactions, format="list"), %r)' % (list(ids),))],
+             may_raise=('ValueError',), options=PLAIN, cross_check=False)
+    contract(OBEP + '.to_omkm_yaml', P, label='member-ids=%s' % ','.join(ids),
+             args=dict(self=New(OBEP, name=Const('N2_dissoc'), slope=Real(0., 1.), intercept=Real(0., 60.), direction=Const('cleavage'),
+                                descriptor=Const('delta_H'), cleavage_reactions=gas_rxs(*ids)), units=UNITS()),
+             ensures=[('lists-the-ids-verbatim-if-it-accepts-them', 'spec.ids.denotes_exactly(result["cleavage-reactions"], %r)' % (list(ids),))],
+             may_raise=('ValueError',), options=PLAIN, cross_check=False)
